@@ -126,7 +126,6 @@ impl WorkerHandle {
                 // restart the worker; report a harness error for this job
                 let _ = self.child.kill();
                 let _ = self.child.wait();
-                kill_strays(&self.scratch);
                 if let Ok(n) = spawn_worker(&self.scratch, &self.sutbin) {
                     *self = n;
                 }
@@ -235,17 +234,7 @@ impl Pool {
             let _ = w.child.wait();
         }
         self.workers.clear();
-        kill_strays(&self.scratch_base);
         let _ = std::fs::remove_dir_all(&self.scratch_base);
-        let tag = self.scratch_base.file_name().unwrap().to_string_lossy().into_owned();
-        if let Ok(rd) = std::fs::read_dir(std::env::temp_dir()) {
-            for e in rd.flatten() {
-                let n = e.file_name().to_string_lossy().into_owned();
-                if n.starts_with(&format!("{}-w", tag)) && n.ends_with("-out") {
-                    let _ = std::fs::remove_dir_all(e.path());
-                }
-            }
-        }
     }
 }
 
@@ -268,8 +257,14 @@ pub fn worker_main(scratch: &str) {
         .parent()
         .unwrap()
         .to_path_buf();
+    // every run mounts its own private tmpfs here, so absolute paths are the
+    // same in every worker and every run
+    let fixed = PathBuf::from("/dev/shm/psimfix");
+    let _ = std::fs::create_dir_all(&fixed);
+    let _ = std::fs::create_dir_all("/dev/shm/psimout");
+    let _ = scratch;
     let paths = Paths {
-        scratch: PathBuf::from(scratch),
+        scratch: fixed,
         sutbin,
         simdo: bindir.join("simdo"),
         shim: verif.join("target").join("psim_shim.so"),
@@ -366,6 +361,15 @@ fn execute(job: &Job, paths: &Paths) -> RunResult {
             libc::mount(
                 b"tmpfs\0".as_ptr() as *const _,
                 sc.as_ptr(),
+                b"tmpfs\0".as_ptr() as *const _,
+                0,
+                b"size=1g\0".as_ptr() as *const _,
+            );
+            // a second private tmpfs (another device number) for command output
+            // and TMPDIR: writes there are not scheduling points
+            libc::mount(
+                b"tmpfs\0".as_ptr() as *const _,
+                b"/dev/shm/psimout\0".as_ptr() as *const _,
                 b"tmpfs\0".as_ptr() as *const _,
                 0,
                 b"size=1g\0".as_ptr() as *const _,
